@@ -1,8 +1,8 @@
 """GenYaml.v / GenToml.v / GenXml.v: the tables the YAML, TOML and XML writers of
 crates/jrsonnet-stdlib/src/manifest/{yaml,toml,xml}.rs are driven by.
 
-  yaml.rs  bare_safe: the RESERVED word list, the six `matches!` character classes (safe, date,
-           integer, binary, float, hex) and -- fail closed -- the control skeleton of the function
+  yaml.rs  bare_safe: the RESERVED word list, the seven `matches!` character classes (safe, date,
+           integer, binary, octal, float, hex) and -- fail closed -- the control skeleton of the function
            (the if-chain with its count thresholds and prefixes), which Model.v transliterates by
            hand; std_to_yaml / cli paddings and quoting flags.
   toml.rs  bare_allowed byte class, the std.manifestToml default indent, skip_empty_sections presets.
@@ -69,6 +69,7 @@ else if is_reserved(key) { return false; }
 else if key.chars().all(|v| CLS) && count_char(key, '-') == 2 { return false; }
 else if key.chars().all(|v| CLS) && count_char(key, '-') < 2 { return false; }
 else if key.chars().all(|v| CLS) && (key.starts_with("0b") || key.starts_with("-0b")) && key.len() > 2 { return false; }
+else if key.len() > 2 && key.starts_with("0o") && key[2..].chars().all(|v| CLS) { return false; }
 else if key.chars().all(|v| CLS) && count_char_u(key, 'e') < 2 && count_char(key, '-') < 3 && count_char(key, '.') <= 1 { return false; }
 else if key.chars().all(|v| CLS) && key.len() >= 3 && count_char(key, '-') < 2 && (key.starts_with("-0x") || key.starts_with("0x")) { return false; }
 true
@@ -113,8 +114,8 @@ def gen_yaml():
         raise TranslateError("RESERVED list is empty or unrecognised")
     reserved = [rust_bytes(w) for w in words]
     classes = re.findall(r"matches!\(v,\s*(.*?)\)\)", body, re.S)
-    if len(classes) != 6:
-        raise TranslateError(f"bare_safe: expected 6 character classes, found {len(classes)}")
+    if len(classes) != 7:
+        raise TranslateError(f"bare_safe: expected 7 character classes, found {len(classes)}")
     parsed = [parse_class(c, "bare_safe class") for c in classes]
     skel = body
     skel = re.sub(r"= &\[(.*?)\];", "= RES;", skel, count=1, flags=re.S)
@@ -162,11 +163,11 @@ def gen_yaml():
     sstd = self_literal(fn_body(ev, r"pub fn std_yaml_stream\(", "std_yaml_stream"), "std_yaml_stream")
     scli = fn_body(ev, r"pub fn cli\(inner: I\) -> Self \{", "YamlStreamFormat::cli")
     scli = self_literal(scli, "YamlStreamFormat::cli")
-    names = ["safe", "date", "int", "bin", "float", "hex"]
+    names = ["safe", "date", "int", "bin", "oct", "float", "hex"]
     out = ["From Coq Require Import NArith List.", "Import ListNotations.", "Open Scope N_scope.",
            "(* RESERVED of bare_safe, crates/jrsonnet-stdlib/src/manifest/yaml.rs *)",
            "Definition yaml_reserved : list (list N) :=", "  [" + ";\n   ".join(nlist(w) for w in reserved) + "].",
-           "(* the six `matches!` classes of bare_safe as inclusive byte ranges, in source order *)"]
+           "(* the seven `matches!` classes of bare_safe as inclusive byte ranges, in source order *)"]
     for n, c in zip(names, parsed):
         out.append(f"Definition yaml_cls_{n} : list (N * N) := {cls_v(c)}.")
     out += ["(* YamlFormat::std_to_yaml: padding, arr_element_padding for indent_array_in_object = true / false *)",
@@ -199,11 +200,25 @@ def gen_toml():
     text = strip_comments(src("crates/jrsonnet-stdlib/src/manifest/toml.rs"))
     body = fn_body(text, r"fn bare_allowed\(s: &str\) -> bool \{", "bare_allowed")
     cls = one(r"s\.bytes\(\)\s*\.all\(\|c\| matches!\(c,\s*(.*?)\)\)", body, "bare_allowed class", re.S)
-    if squash(re.sub(r"matches!\(c,\s*(.*?)\)\)", "CLS)", body, flags=re.S)) != "s.bytes().all(|c|CLS)":
-        raise TranslateError("bare_allowed: the body is no longer `s.bytes().all(|c| matches!(..))`")
+    if squash(re.sub(r"matches!\(c,\s*(.*?)\)\)", "CLS)", body, flags=re.S)) != "!s.is_empty()&&s.bytes().all(|c|CLS)":
+        raise TranslateError("bare_allowed: the body is no longer `!s.is_empty() && s.bytes().all(|c| matches!(..))`")
     kbody = squash(fn_body(text, r"fn escape_key_toml_buf\(key: &str, buf: &mut String\) \{", "escape_key_toml_buf"))
-    if kbody != "ifbare_allowed(key){buf.push_str(key);}else{escape_string_json_buf(key,buf);}":
+    if kbody != "ifbare_allowed(key){buf.push_str(key);}else{escape_string_toml_buf(key,buf);}":
         raise TranslateError("escape_key_toml_buf: body changed")
+    # escape_string_toml_buf: JSON escaping, then one character replaced when present
+    ebody = fn_body(text, r"fn escape_string_toml_buf\(s: &str, buf: &mut String\) \{", "escape_string_toml_buf")
+    m = re.fullmatch(r"ifs\.contains\('\\u\{([0-9a-fA-F]+)\}'\)\{letmuttmp=String::new\(\);escape_string_json_buf\(s,&muttmp\);"
+                     r"buf\.push_str\(&tmp\.replace\('\\u\{([0-9a-fA-F]+)\}',\"((?:[^\"\\]|\\.)*)\"\)\);\}"
+                     r"else\{escape_string_json_buf\(s,buf\);\}", squash(ebody))
+    if not m or m.group(1) != m.group(2):
+        raise TranslateError("escape_string_toml_buf: body is no longer `if s.contains(C) { json-escape; replace(C, R) } else { json-escape }`")
+    repl_ch = int(m.group(1), 16)
+    if repl_ch >= 128:
+        raise TranslateError("escape_string_toml_buf: replaced character is not ASCII")
+    repl_by = rust_bytes(m.group(3))
+    one(r"Val::Str\(s\) => \{\s*escape_string_toml_buf\(&s\.clone\(\)\.into_flat\(\), buf\);\s*\}", text, "manifest_value string arm")
+    if len(re.findall(r"escape_string_json_buf\(", text)) != 2:
+        raise TranslateError("toml.rs calls escape_string_json_buf outside escape_string_toml_buf")
     cli = self_literal(fn_body(text, r"pub fn cli\(", "TomlFormat::cli"), "TomlFormat::cli")
     std = self_literal(fn_body(text, r"pub fn std_to_toml\(", "std_to_toml"), "std_to_toml")
     unit = one(r'let padding = "((?:[^"\\]|\\.)*)"\.repeat\(padding\);', text, "TomlFormat::cli padding unit")
@@ -213,6 +228,9 @@ def gen_toml():
     out = ["From Coq Require Import NArith List.", "Import ListNotations.", "Open Scope N_scope.",
            "(* bare_allowed of crates/jrsonnet-stdlib/src/manifest/toml.rs as inclusive byte ranges *)",
            f"Definition toml_cls_bare : list (N * N) := {cls_v(parse_class(cls, 'bare_allowed class'))}.",
+           "(* escape_string_toml_buf: the character replaced after JSON escaping, and its replacement *)",
+           f"Definition toml_replaced : N := {repl_ch}.",
+           f"Definition toml_replacement : list N := {nlist(repl_by)}.",
            f"Definition toml_std_skip_empty_sections : bool := {bool_field(std, 'skip_empty_sections', 'std_to_toml')}.",
            f"Definition toml_cli_skip_empty_sections : bool := {bool_field(cli, 'skip_empty_sections', 'cli')}.",
            f"Definition toml_cli_pad_unit : list N := {nlist(rust_bytes(unit))}.",
